@@ -471,7 +471,9 @@ def gen_method_sigs(rng, n):
     names = ["add", "f", "transfer_asset", "x1", "Opt_in", "m"]
     tys = ["uint64", "byte[]", "string", "(uint64,bool)", "address", "uint8[3]", "pay", "account", "ufixed64x2", "bool[]"]
     out = ["add(uint64,uint64)uint64", "f()void", 'a"b c()void', 'a" ; int 1 ; byte "b', "a\\", "a\\()void", "a\nint 1", "a // b()void", "a;b()void",
-           "\u00e9()void", "\U0001f600", " ", "a b", "a\tb", 'a""b', "'", "a\\\"b"]
+           "\u00e9()void", "\U0001f600", " ", "a b", "a\tb", 'a""b', "'", "a\\\"b",
+           "a\rb", "a\r\nb()void", "a\x0bb", "a\x0cb()void", "a\x1cb", "a\x1db", "a\x1eb", "a\x85b", "a\u2028b()void", "a\u2029b", "a\x00b", "a // b", "a;int 1",
+           "\"", "\\", "\n", "\r", "a\x7f", "base64(AA//)", "a(b //c)void"]
     for _ in range(n):
         s = "%s(%s)%s" % (rng.choice(names), ",".join(rng.choice(tys) for _ in range(rng.randrange(0, 4))), rng.choice(tys + ["void"]))
         out.append(s)
@@ -558,11 +560,13 @@ def main(argv):
             except UnicodeEncodeError:
                 r = call_real(pt.Bytes, s)
                 tally("surrogate")
+                # documented rejection (after /repo a9485d9): a str without UTF-8 encoding is a TealInputError
                 if r[0] == "ok":
                     ck.violation("Bytes(str with a lone surrogate) is accepted although the string has no UTF-8 encoding",
                                  {"kind": "surrogate-accepted", "literal": lit_json(("utf8", s))})
-                elif r[1] != "UnicodeEncodeError" and r[1] not in PYTEAL_ERRORS:
-                    ck.notes.append("Bytes(lone surrogate) raises %s" % r[1])
+                elif r[1] != "TealInputError":
+                    ck.violation("Bytes(%s) - a str with a lone surrogate, which has no UTF-8 encoding - is not rejected with a PyTeal error: the constructor raises %s" % (ascii(s), r[1]),
+                                 {"kind": "surrogate-error-class", "literal": lit_json(("utf8", s)), "observed": list(r[:2]), "expected": "TealInputError"})
         res = ask_batched(model, "escape", utf, sx_hex)
         for s, u, m in zip(keep, utf, res):
             r = call_real(escapeStr, s)
@@ -590,7 +594,7 @@ def main(argv):
     ck.coverage["exhaustive_domain"] = "all 65,792 strings of one or two code points below 256 (escapeStr); all strings over 7-8 letter alphabets up to length %d (validators)" % (6 if thorough else 5)
     cps = codepoint_sample(rng, thorough)
     compare_escape([chr(c) for c in cps], "codepoints", False)
-    compare_escape(["\ud800", "a\udfffb", "\U0010ffff"], "surrogates", False)
+    compare_escape(["\ud800", "a\udfffb", "\udc00\ud800", "x" * 50 + "\udbff", "\U0010ffff"], "surrogates", False)
     rnd = [rand_hazard_string(rng) for _ in range(40000 if thorough else 10000)]
     rnd = compare_escape(rnd, "random-hazard", True)
     for s in rnd[:3]:
@@ -758,34 +762,37 @@ def main(argv):
     # 5. MethodSignature
     # =================================================================================================
     sigs = gen_method_sigs(rng, 1500 if thorough else 300)
-    narrow_ok = [s for s in sigs if all(ord(c) < 256 for c in s)]
     # the model works on the UTF-8 bytes of the text (what ends up in the TEAL file)
     res = ask_batched(model, "method-line", sigs, lambda s: sx_str(wire_bytes_of_text(s)))
     good_sigs = []
-    meth_known = []
+    from algosdk import abi
+
+    def canonical_abi(t):
+        try:
+            return abi.Method.from_signature(t).get_signature() == t
+        except Exception:
+            return False
     for s, m in zip(sigs, res):
         m = opt(m)
         rl = real_line(pt.MethodSignature, s)
         ck.count(("method", s))
         real_cmp = ("ok", to_latin(rl[1])) if rl[0] == "ok" else rl
-        faithful = real_cmp == (("ok", m) if m is not None else ("rej", "TealInputError"))
-        if not faithful:
+        if real_cmp != (("ok", m) if m is not None else ("rej", "TealInputError")):
             mismatch.append(("MethodSignature", ("method", s), rl, m))
-        tally("method-%s" % ("plain" if not any(c in s for c in '"\\\n') else "hazard"))
+        unquotable = any(c in s for c in '"\\\n\r')
+        tally("method-%s" % ("unquotable" if unquotable else "separator" if any(c in s for c in "\x0b\x0c\x1c\x1d\x1e\x85\u2028\u2029") else "plain"))
         if rl[0] == "ok":
+            # whatever is accepted must read back as ONE `method` instruction for exactly this text
             f1 = oracle.check_group([("method", s)])
             if f1:
-                in_class = faithful and any(c in s for c in '"\\\n')
-                if in_class and ck.match_known(lambda f: f["id"] == "methodsig-unescaped"):
-                    meth_known.append(s)
-                else:
-                    fails += f1
+                fails += f1
             else:
                 good_sigs.append(("method", s))
-        elif s != "":
-            fails.append((("method", s), "non-empty signature rejected with %s" % rl[1], None))
+        elif s != "" and not unquotable:
+            # documented rejections (after /repo ae4cf37): the empty text and texts that cannot be put between
+            # double quotes (", backslash, LF, CR - none occurs in an ARC-4 signature); anything else must be accepted
+            fails.append((("method", s), "%s rejected with %s" % ("valid ABI method signature" if canonical_abi(s) else "quotable signature text", rl[1]), None))
     # cross-check the selector oracle with algosdk.abi where the text is a valid ABI signature
-    from algosdk import abi
     n_abi = 0
     for s in sigs:
         try:
@@ -817,17 +824,7 @@ def main(argv):
             r = call_real(pt.Addr, s)
             if r[0] == "ok" and py_addr(s) is None:
                 ck.known(f["id"], "Addr(%r) is accepted although its checksum is wrong (valid_address tests length and alphabet only); %d more generated addresses of this class accepted" % (s, len(addr_known)))
-        elif f["id"] == "methodsig-unescaped":
-            s = w["signature"]
-            bad = call_real(lambda: oracle.check_group([("method", s)]))
-            if bad[0] == "ok" and bad[1]:
-                ck.known(f["id"], "MethodSignature(%r) is emitted as %s - the text is quoted without escaping, the line no longer reads as one literal; %d more generated signatures of this class" % (s, real_line(pt.MethodSignature, s)[1], len(meth_known)))
-        elif f["id"] == "bytes-surrogate-unicodeerror":
-            r = call_real(pt.Bytes, "".join(chr(c) for c in w["codepoints"]))
-            if r[0] == "exc" and r[1] == "UnicodeEncodeError":
-                ck.known(f["id"], "Bytes(str with a lone surrogate U+D800) raises UnicodeEncodeError instead of a PyTeal error (rejected at construction, wrong error class; see C20)")
-    if (addr_known and not any(k[0] == "addr-checksum-unchecked" for k in ck.known_seen)) or \
-       (meth_known and not any(k[0] == "methodsig-unescaped" for k in ck.known_seen)):
+    if addr_known and not any(k[0] == "addr-checksum-unchecked" for k in ck.known_seen):
         ck.model_problem("cases were attributed to a known finding whose witness no longer reproduces")
 
     mark("known")
@@ -873,7 +870,7 @@ def main(argv):
     ck.coverage["oracle_by_kind"] = oracle.hist
     ck.coverage["prevchar_variant_differs_on_lines"] = oracle.prevchar_differs
     ck.coverage["disagreements_checked"] = len(mismatch) + len(fails)
-    ck.coverage["known_class_members"] = {"addr-checksum-unchecked": len(addr_known), "methodsig-unescaped": len(meth_known)}
+    ck.coverage["known_class_members"] = {"addr-checksum-unchecked": len(addr_known)}
     for l in [w for w in well if len(w[2]) > 6][:2]:
         ck.sample({"kind": "Bytes(base,text)", "literal": lit_json(l), "teal": real_line(pt.Bytes, l[1], l[2])[1], "value_hex": expected_value(l)[1].hex()})
     ck.sample({"kind": "oracle", "teal": pt.compileTeal(pt.Seq(pt.Pop(pt.Bytes('a"\\ //;\n')), pt.Approve()), pt.Mode.Application, version=6)})
